@@ -93,7 +93,8 @@ def run(ctx):
             # (the shapes where precedence matters), sampled to a budget
             rng.shuffle(trees)
             small = [t for t in trees if X.size(t) <= 4 or (t['k'] == 'prod' and t['c'][0].get('raw'))]
-            trees = small + [t for t in trees if t not in small][:3000 - min(len(small), 1500)]
+            ids = {id(t) for t in small}
+            trees = small + [t for t in trees if id(t) not in ids][:3000 - min(len(small), 1500)]
         deep = [X.random_tree(rng, 4, [X.V('a'), X.V('b'), X.V('c'), X.N(2), X.N(3)]) for _ in range(400 if ctx.quick else 20000)]
         deep += [X.random_logical(rng, 2, [X.V('a'), X.V('b'), X.N(2)]) for _ in range(150 if ctx.quick else 5000)]
     cases, meta = [], []
